@@ -2,7 +2,7 @@
    generated case lists, and the Prop-level reading of "the reported RW information covers the database".
    No proofs here; see RwProofs.v. *)
 From Coq Require Import NArith ZArith List Bool.
-From Verif Require Import RwInfo.RwModel.
+From Verif Require Import RwInfo.RwModel RwInfo.FeatModel.
 Import ListNotations.
 Local Open Scope N_scope.
 
@@ -22,8 +22,10 @@ Record exp_op := mk_exp { e_read : bool; e_rbytes : N; e_write : bool; e_changed
 (* c_form: index of the database form; c_rf/c_wf: CPU flags read / written (W, X, U, 0, 1) per the database; c_extra_read: a {k}
    mask is present; c_merge: merge-masking (no {z}, not an implicitly zeroing instruction, register destination);
    c_rmcheck: register-only tuple (the reading under which the register allocator uses kRegMem). *)
+(* c_feat: for every database form the tuple matches, the feature ids of its extensions (AVX512_VL dropped when a 512-bit register or
+   index is used; only EVEX forms match when a register id is 16..31); c_featcheck: false only for a tuple recorded as a finding. *)
 Record case := mk_case { c_form : N; c_q : query; c_exp : list exp_op; c_rf : N; c_wf : N; c_extra_read : bool; c_merge : bool;
-                         c_rmcheck : bool }.
+                         c_rmcheck : bool; c_feat : list (list N); c_featcheck : bool }.
 
 Definition subset (a b : N) : bool := N.ldiff a b =? 0.
 
@@ -75,3 +77,12 @@ Definition covers (c : case) (out : rw_info) : Prop :=
 
 Definition rm_claims_true (c : case) (out : rw_info) : Prop :=
   Forall2 (fun e o => has_flag (o_flags o) fRegM -> In (o_rmsize o) (e_memsizes e)) (c_exp c) (i_ops out).
+
+(* ------------------------------------------------------------------ required CPU features *)
+Definition case_feat_ok (T : tables) (C : feat_consts) (c : case) : bool := feat_case_ok T C (c_q c) (c_feat c).
+Definition case_feat_good (T : tables) (C : feat_consts) (c : case) : bool :=
+  if c_featcheck c then case_feat_ok T C c else negb (case_feat_ok T C c).
+(* the reported feature set contains all extensions of at least one database form the tuple matches: the instruction executes on
+   any CPU with the reported features provided the encoder emits that form (which form is emitted is C01's subject) *)
+Definition features_cover (c : case) (rep : list N) : Prop :=
+  exists alt, In alt (c_feat c) /\ forall f, In f alt -> In f rep.
